@@ -256,10 +256,11 @@ theorem status_truthful (s : St) (it : Item) (hw : it.wf = true) (hi : Inv s) (h
   (good_item (Acc.start s) it hw hi hl).truthful (fun _ h => nomatch h)
 
 /-- **the stack stays aligned**: whatever happens inside (kills at any depth, errors, foreign
-panics), after a bracketed call the parents are exactly those before, the invariant holds again,
+panics), after a bracketed call the parents are those before (`LowerL`: the same frames, possibly
+with lower memory counters if the call released memory they had required — commit 8007e69), the invariant holds again,
 and unless the active context itself was terminated it is still live. -/
 theorem call_keeps_stack_aligned (s : St) (it : Item) (hw : it.wf = true) (hi : Inv s) (hl : s.cur.live = true) :
-    (exec s it).1.st.parents = s.parents ∧ Inv (exec s it).1.st ∧
+    LowerL (exec s it).1.st.parents s.parents ∧ Inv (exec s it).1.st ∧
     ((∀ res, (exec s it).2 ≠ .killed res) → (exec s it).1.st.cur.live = true) ∧
     (∀ res, (exec s it).2 = .killed res → (exec s it).1.st.cur.status = StatusKilled) := by
   have g := good_item (Acc.start s) it hw hi hl
@@ -269,7 +270,7 @@ theorem call_keeps_stack_aligned (s : St) (it : Item) (hw : it.wf = true) (hi : 
 theorem call_from_root_returns_to_root (d : CtxDef) (body : List Item) (hw : wfBody body = true) :
     (exec St.init (.call d body)).1.st.parents = [] ∧ Inv (exec St.init (.call d body)).1.st :=
   let g := call_keeps_stack_aligned St.init (.call d body) (by unfold Item.wf; exact hw) inv_init rfl
-  ⟨g.1, g.2.1⟩
+  ⟨by have h := g.1; generalize (exec St.init (.call d body)).1.st.parents = l at h; cases h; rfl, g.2.1⟩
 
 /-! ## non-vacuity -/
 
